@@ -34,6 +34,9 @@ ASSUME = [
     "reference model (mc/model.py) restates C01-C07 from the property text; every implementation transition is compared with it",
 ]
 
+# properties whose oracle depends on the action DEFINITION (cost, prob, service, access ...): swept a second
+# time with every action passed as a parameter vector to a parameterised-action environment
+PARAM_PASS = {"C01", "C02", "C05", "C06", "C07", "C08"}
 POST = {"C03": ["envobj"], "C04": ["envobj"], "C06": ["envobj"], "C13": ["envobj"]}
 NEEDED_CLASSES = {
     "C01": ["exploit|success", "privesc|success", "exploit|host_fail", "privesc|host_fail", "privesc|gate:target_not_held"],
@@ -48,7 +51,7 @@ NEEDED_CLASSES = {
 
 def run(pid, tier):
     t0 = time.time()
-    opts = {"post": POST.get(pid, [])}
+    opts = {"post": POST.get(pid, []), "param_pass": pid in PARAM_PASS}
     agg, violations, errors = run_family([pid], tier, opts)
     if errors:
         raise HarnessError("; ".join(errors[:3]))
@@ -61,9 +64,9 @@ def run(pid, tier):
     extra = agg.get("extra", {}).get("envobj", {})
     cov = {
         "states": agg["states"],
-        "transitions": agg["transitions"] + int(extra.get("resets", 0)) + int(extra.get("steps", 0)),
-        "traces_validated_against_impl": agg["transitions"],
-        "evaluations": agg["transitions"] + int(extra.get("resets", 0)) + int(extra.get("steps", 0)),
+        "transitions": agg["transitions"] + agg.get("param_transitions", 0) + int(extra.get("resets", 0)) + int(extra.get("steps", 0)),
+        "traces_validated_against_impl": agg["transitions"] + agg.get("param_transitions", 0),
+        "evaluations": agg["transitions"] + agg.get("param_transitions", 0) + int(extra.get("resets", 0)) + int(extra.get("steps", 0)),
         "distinct_nontrivial": int(agg["nontrivial"].get(pid, 0)),
         "rule": RULES[pid],
         "samples": samples,
@@ -74,6 +77,7 @@ def run(pid, tier):
         "family_features": agg["features"],
         "env_object_pass": extra,
         "generative_transitions": agg["transitions"],
+        "of_which_through_parameter_vectors": agg.get("param_transitions", 0),
         "bound": "complete reachable state graph of every family scenario; both draw sides; all flat actions + no-op",
     }
     return finish(pid, tier, cov, [v for v in violations if v["property"] == pid], ASSUME, t0)
